@@ -2,7 +2,7 @@
 // (--mode "w=<key name>,r=<key name>", names k1 k2 k3 or empty; viper is process-global).
 //
 // Script: executions {"ev":"reset","cfg":{"w":..,"r":..},"present":bool} followed by
-// {"ev":"op","op":"upload|delete|read|head","form":..,"via":..,"tok":{shape,alg,key,exp,nbf,claim}}.
+// {"ev":"op","op":"upload|post|delete|read|head","form":..,"via":..,"tok":{shape,alg,key,exp,nbf,claim}}.
 // Executions whose cfg is not the one of this process are skipped.  For every op the driver builds
 // exactly the described token as text, sends the request and records: the status class, whether
 // the answer carried the blob or its metadata, whether the volume changed (fingerprint taken over
@@ -23,6 +23,7 @@ import (
 	"fmt"
 	"hash"
 	"io/ioutil"
+	"mime/multipart"
 	"net/http"
 	"net/url"
 	"strings"
@@ -43,6 +44,9 @@ var client = &http.Client{Transport: &http.Transport{DisableCompression: true, M
 var keyText = map[string]string{"": "", "k1": "verif-signing-key-ONE-0123456789", "k2": "verif-signing-key-TWO-9876543210", "k3": "verif-signing-key-THREE-55555"}
 
 var rsaKey *rsa.PrivateKey
+
+// Content-Type of the multipart body while a "post" operation is being sent
+var postType string
 
 func b64(b []byte) string { return base64.RawURLEncoding.EncodeToString(b) }
 
@@ -270,6 +274,9 @@ func main() {
 		if rd != nil {
 			req, _ = http.NewRequest(method, u, rd)
 			req.Header.Set("Content-Type", "application/octet-stream")
+			if postType != "" {
+				req.Header.Set("Content-Type", postType)
+			}
 		} else {
 			req, _ = http.NewRequest(method, u, nil)
 		}
@@ -326,6 +333,16 @@ func main() {
 			case "upload":
 				content = []byte(fmt.Sprintf("%sv%d", marker, i+1))
 				resp, body = do("PUT", path, content, text, has, tr.S(e, "via"))
+			case "post":
+				content = []byte(fmt.Sprintf("%sv%d", marker, i+1))
+				var mb bytes.Buffer
+				mw := multipart.NewWriter(&mb)
+				fw, _ := mw.CreateFormFile("file", "blob.bin")
+				fw.Write(content)
+				mw.Close()
+				postType = mw.FormDataContentType()
+				resp, body = do("POST", path, mb.Bytes(), text, has, tr.S(e, "via"))
+				postType = ""
 			case "delete":
 				resp, body = do("DELETE", path, nil, text, has, tr.S(e, "via"))
 			case "read":
